@@ -413,10 +413,10 @@ class Gen:
             return (kind, None if n == 1 and r.random() < 0.6 else n)
         if k < 0.84:
             if infunc or "wildreturn" in self.feats:
-                return ("R", r.choice([None, None, 0, 1, 3, 255, 256 + 4, -1, -300]))
+                return ("R", r.choice([None, None, 0, 1, 3, 255, 256 + 4, -1, -300, 2147483648 + 3, 9223372036854775807]))
             return self.leaf()
         if k < 0.90:
-            return ("X", r.choice([None, 0, 1, 5, 255, 300, -1, -257]))
+            return ("X", r.choice([None, 0, 1, 5, 255, 300, -1, -257, 4294967296 + 9]))
         if ncalls:
             return self.call(ncalls)
         return self.leaf()
